@@ -148,6 +148,9 @@ func cmdCheck(args []string) int {
 		}
 		cfg := Config{MaxDecisions: 600, MaxBlockVisits: 4000, RangeChecks: !h.NoRange, Workers: *workers, Tier: *tier, Seed: seed,
 			QueryTimeoutMs: 10000, MaxSplit: 4, MaxJSONSlice: 2, Solver: Z3, Concurrent: h.Concurrent, SolverLog: *solverLog}
+		if sv := os.Getenv("VERIF_SOLVER"); sv != "" {
+			cfg.Solver = SolverKind(sv)
+		}
 		if *tier == "thorough" {
 			cfg.QueryTimeoutMs = 120000
 			cfg.MaxJSONSlice = 3
